@@ -64,15 +64,11 @@ def _real(mod, fname="validate_encoded"):
   return accepts
 
 
-KF_NEWLINE = "KF-C04-trailing-newline"
-
-
 def s_e2_validators():
   import z3
   from vlib import e2_regex as E
   from spec import gfa_grammar as G
   tier = os.environ.get("VERIF_TIER", "quick")
-  kf = set(x for x in os.environ.get("VERIF_KF_ACTIVE", "").split(",") if x)
   maxlen = 2 if tier == "quick" else 3
   mods = field_modules(REPO)
   s = z3.String("s")
@@ -105,9 +101,6 @@ def s_e2_validators():
     Gr = _grammar_re(dt)
     Gz = z3.InRe(s, Gr)
     cons = [A != Gz]
-    if KF_NEWLINE in kf:
-      # listed finding: '$' lets a validator accept <grammatical field> + '\n'; keep searching the rest of the space
-      cons.append(z3.Not(z3.InRe(s, z3.Concat(E.fullmatch_re(G.GRAMMAR[dt]), z3.Re(z3.StringVal("\n"))))))
     verdict, model = solver.check(*cons)
     res["distinct_nontrivial"] += 1
     if verdict == "unsat":
@@ -129,8 +122,6 @@ def s_e2_validators():
     A = z3.InRe(s, E.match_re(pat))
     Gz = z3.InRe(s, E.fullmatch_re(G.TAG))
     cons = [A != Gz]
-    if KF_NEWLINE in kf:
-      cons.append(z3.Not(z3.InRe(s, z3.Concat(E.fullmatch_re(G.TAG), z3.Re(z3.StringVal("\n"))))))
     verdict, model = solver.check(*cons)
     if verdict == "unsat": res["discharged"] += 1
     elif verdict == "sat":
